@@ -137,6 +137,32 @@ for _k, _v in ROUND4.items():
     CHECKS[_k]["text"] = CHECKS[_k]["text"] + _v
 
 
+ROUND56 = {
+    "C01": " Further: intermediate results of 8-17 MB, a 210-deep chain in a recorder-free process, number arguments that clean to NaN, deep copies of finished programs, programs evaluated through their command objects only, boolean masks consumed by commands that demand data.",
+    "C02": " Tables named through a symbolic link and '..', valid numbers next to the missing marker, offset data.",
+    "C03": " Further: extreme payloads (1.8e308), NetCDF missing_value / valid_range marking, CSV re-reads with another marker, CSV tables of up to 140 000 rows, a later same-family command on other fields, a third of the invocations through Program.run().",
+    "C04": " Cancelling weights over agreeing fields; the range re-checked on a deep copy of the finished model.",
+    "C05": " Whole-array statistics on large rasters with no-data bands in reversed cell / row order, offset data, execute() called directly with the caller's own parameter objects, input files rearranged in place.",
+    "C06": " Plain ndarrays among masked fields, weights as NumPy scalars, large-raster algebra, fields produced by real commands, evaluation inside a deep copy whose source fields were replaced.",
+    "C07": " Weights as NumPy scalars, faults asked again, Program.run() path with extreme payloads.",
+    "C08": " Offset data; parameters as NumPy scalars.",
+    "C09": " File reads as sequence steps; copy / pickle of the program at the end of a sequence.",
+    "C10": " Files over a user's command library loaded through Program.from_source (command classes, argument names and values compared with what was written; whitespace-only lines inside multi-line strings).",
+    "C11": " The tool run repeatedly on one path whose content changes; faults of a user's command library (wrong actual output, Python exceptions with a lineno of their own).",
+    "C12": " Errors are rendered inside the monitored window; subclasses of fuzzy commands from a user library; two programs built from the same argument objects; parameter names declared by related commands.",
+    "C13": " Repeated argument names; 23 kinds of near-type values at 21 parameter sites through add_command.",
+    "C14": " EEMS 2.0 self references, a second run() of rejected programs, iterable command objects.",
+    "C15": " Non-composed Unicode, non-finite numbers, Path objects and NumPy numbers in API-built programs; the saved file reached through a symbolic link.",
+    "C16": " Python keywords as names, 2.0 files through the tool under several file names, user-library commands inside 2.0 files, raw Windows paths, other library lists.",
+    "C17": " Files of 8 192 - 70 000 lines, requested headers that nearly match an existing one, a fractional marker given as a NumPy scalar.",
+    "C18": " Fuzzy pad, missing_value / valid_range marking, names differing in case, underscore attributes, other type-name spellings, written fuzzy results made by commands.",
+    "C19": " A library importable only from a working directory; the command-line tool in histories and as part of every probe.",
+    "C20": " NumPy-scalar / fraction raw values, decimals to BooleanParameter, the matrix inside a deep copy of the world, symlinked paths, raw arguments and serialised text unchanged by run().",
+}
+for _k, _v in ROUND56.items():
+    CHECKS[_k]["text"] = CHECKS[_k]["text"] + _v
+
+
 def main():
     props = [json.loads(l) for l in open(os.path.join(VERIF, "properties.jsonl"))]
     checks = []
